@@ -302,3 +302,58 @@ fn check_agree(name: &str, load: fn(&mut SparqlDatabase, &str), kind: usize) {
         assert!(lexical(&db).len() == before.len() + want.len(), "parse_nquads_and_add: {} quads stored, expected the {} previous ones plus {}", lexical(&db).len(), before.len(), want.len());
     }
 }
+
+// ---- predicate lists (;) and object lists (,) on one line ---------------------------------------------------------
+fn check_lists(name: &str, load: fn(&mut SparqlDatabase, &str)) {
+    let text = "<http://e/s> <http://e/p> <http://e/o1> , <http://e/o2> ; <http://e/q> <http://e/o3> .\n<http://e/t> <http://e/p> <http://e/o1> , <http://e/o2> , <http://e/o3> .\n<http://e/u> <http://e/p> <http://e/o1> ; <http://e/q> <http://e/o2> ; <http://e/r> <http://e/o3> .\n";
+    let want: L = [("s", "p", "o1"), ("s", "p", "o2"), ("s", "q", "o3"), ("t", "p", "o1"), ("t", "p", "o2"), ("t", "p", "o3"), ("u", "p", "o1"), ("u", "q", "o2"), ("u", "r", "o3")]
+        .iter().map(|t| (format!("http://e/{}", t.0), format!("http://e/{}", t.1), format!("http://e/{}", t.2))).collect();
+    let mut db = SparqlDatabase::new();
+    load(&mut db, text);
+    report(name, "three statements with object lists (,) and predicate lists (;)", &lexical(&db), &want);
+}
+#[test] fn w__parse_turtle__predicate_and_object_lists() { check_lists("parse_turtle", |db, t| db.parse_turtle(t)); }
+#[test] fn w__parse_n3__predicate_and_object_lists() { check_lists("parse_n3", |db, t| db.parse_n3(t)); }
+
+// ---- layout of a line-oriented document: CRLF, blank and comment lines, no final newline, duplicates, loading twice ------
+fn layout_variants(n: usize) -> Vec<(&'static str, String, L)> {
+    let (canonical, triples) = doc(n);
+    let lines: Vec<&str> = canonical.lines().collect();
+    let mut v = Vec::new();
+    v.push(("CRLF line ends", lines.iter().map(|l| format!("{}\r\n", l)).collect::<String>(), triples.clone()));
+    v.push(("no final newline", canonical.trim_end().to_string(), triples.clone()));
+    v.push(("blank and comment lines", lines.iter().enumerate().map(|(i, l)| if i % 3 == 0 { format!("\n# comment {}\n{}\n", i, l) } else { format!("{}\n", l) }).collect::<String>(), triples.clone()));
+    v.push(("leading and trailing blanks", lines.iter().map(|l| format!("  \t{}  \n", l)).collect::<String>(), triples.clone()));
+    v.push(("every line twice", lines.iter().map(|l| format!("{}\n{}\n", l, l)).collect::<String>(), triples.clone()));
+    // whole 1000-line stretches without a statement: a comment header and a blank section in the middle (the loaders cut the
+    // document into blocks of 1000 lines; a block may hold no statement at all)
+    v.push(("1000 comment lines first", format!("{}{}", "# header\n".repeat(1000), canonical), triples.clone()));
+    v.push(("2500 blank lines in the middle", { let half = lines.len() / 2; format!("{}\n{}{}\n", lines[..half].join("\n"), "\n".repeat(2500), lines[half..].join("\n")) }, triples.clone()));
+    v.push(("1999 comment lines after the first statement", format!("{}\n{}{}\n", lines[0], "# gap\n".repeat(1999), lines[1..].join("\n")), triples.clone()));
+    v
+}
+fn check_layout(name: &str, load: fn(&mut SparqlDatabase, &str)) {
+    for n in [4usize, 1001] {
+        for (what, text, triples) in layout_variants(n) {
+            let mut db = SparqlDatabase::new();
+            load(&mut db, &text);
+            report(name, &format!("{} triples, {}", n, what), &lexical(&db), &triples);
+            load(&mut db, &text);
+            report(name, &format!("{} triples, {}, the same document loaded a second time", n, what), &lexical(&db), &triples);
+        }
+    }
+}
+#[test] fn w__parse_ntriples_and_add__layout() { check_layout("parse_ntriples_and_add", |db, t| db.parse_ntriples_and_add(t)); }
+#[test] fn w__parse_nquads_and_add__layout() { check_layout("parse_nquads_and_add", |db, t| db.parse_nquads_and_add(t)); }
+#[test] fn w__parse_turtle__layout() { check_layout("parse_turtle", |db, t| db.parse_turtle(t)); }
+#[test] fn w__parse_n3__layout() { check_layout("parse_n3", |db, t| db.parse_n3(t)); }
+#[test] fn w__parse_rdf__repeated_subjects_and_reload() {
+    // two rdf:Description elements for one subject, several properties in one element, the document loaded twice
+    let text = "<?xml version=\"1.0\"?>\n<rdf:RDF xmlns:rdf=\"http://www.w3.org/1999/02/22-rdf-syntax-ns#\" xmlns:e=\"http://e/\">\n<rdf:Description rdf:about=\"http://e/s\"><e:p rdf:resource=\"http://e/o1\"/><e:q rdf:resource=\"http://e/o2\"/></rdf:Description>\n<rdf:Description rdf:about=\"http://e/t\"><e:p rdf:resource=\"http://e/o1\"/></rdf:Description>\n<rdf:Description rdf:about=\"http://e/s\"><e:p rdf:resource=\"http://e/o3\"/><e:p rdf:resource=\"http://e/o1\"/></rdf:Description>\n</rdf:RDF>\n";
+    let want: L = [("s", "p", "o1"), ("s", "q", "o2"), ("t", "p", "o1"), ("s", "p", "o3")].iter().map(|t| (format!("http://e/{}", t.0), format!("http://e/{}", t.1), format!("http://e/{}", t.2))).collect();
+    let mut db = SparqlDatabase::new();
+    db.parse_rdf(text);
+    report("parse_rdf", "two descriptions of one subject, several properties per description", &lexical(&db), &want);
+    db.parse_rdf(text);
+    report("parse_rdf", "the same RDF/XML document loaded a second time", &lexical(&db), &want);
+}
